@@ -23,6 +23,10 @@ class Spec:
     def gen(self, rng, tier):
         return []
 
+    def variants(self, cfg, tier):
+        """perturbed re-runs of the same operations in one build configuration; {} = the plain run"""
+        return [{}]
+
     def relevant_keys(self, op):
         """None = every field of the result line"""
         return None
@@ -268,4 +272,37 @@ class C18(Spec):
         return genops.gen_oom(rng, tier)
 
 
-PROPS = {"C18": C18(), "C14": C14(), "C06": C06(), "C07": C07(), "C10": C10(), "C08": C08(), "C09": C09(), "C11": C11(), "C02": C02(), "C03": C03(), "C13": C13(), "C16": C16(), "C01": C01(), "C04": C04(), "C05": C05(), "C12": C12()}
+class C15(Spec):
+    lean_modules = ["Varint.Props.C15"]
+    diff_is_violation = True
+    rule = ("the array-codec, adaptive, float, dictionary, bitmap, RLE and BP128 operations of the other properties' streams, "
+            "each executed (a) in generation order, (b) in two other random orders (so every call is preceded by different other "
+            "library calls), (c) with the stack region below the call and every fresh / released heap block painted 0x00, 0xFF "
+            "and 0xA5, in the ASan and the -O2 build, (d) under valgrind memcheck (uninitialised-value reports attributed to the "
+            "operation); every result line must equal the model's, which is a pure function of the arguments")
+    assumptions = ["what the compiler does with an uninitialised read is a fact about the binary: the perturbations and memcheck "
+                   "observe it, the theorems cannot",
+                   "fresh-process equality: every harness restart (and the valgrind run) is a fresh process"]
+
+    def configs(self, tier):
+        return ["asan", "o2", "o0"]
+
+    def variants(self, cfg, tier):
+        if cfg == "o0":
+            return [{"name": "memcheck", "valgrind": True}]
+        vs = [{}, {"name": "perm1", "perm_seed": 11}, {"name": "paint00", "env": {"VH_PAINT": "00"}, "perm_seed": 12},
+              {"name": "paintff", "env": {"VH_PAINT": "ff"}}, {"name": "painta5", "env": {"VH_PAINT": "a5"}, "perm_seed": 13}]
+        return vs if cfg == "asan" or tier != "quick" else [vs[0], vs[4]]
+
+    def gen(self, rng, tier):
+        ops = genops.gen_arrays(rng, "quick", ["for", "forb", "pfor", "dict", "rle", "rleh", "bp32", "bp64", "bpd32", "bpd64"])
+        ops += genops.gen_adaptive(rng, "quick") + genops.gen_float(rng, "quick")
+        ops += genops.gen_bitmap(rng, "quick")[:40]
+        if tier == "quick":
+            ops = [o for o in ops if len(o) < 6000]
+            rng.shuffle(ops)
+            ops = ops[:1500]
+        return ops
+
+
+PROPS = {"C15": C15(), "C18": C18(), "C14": C14(), "C06": C06(), "C07": C07(), "C10": C10(), "C08": C08(), "C09": C09(), "C11": C11(), "C02": C02(), "C03": C03(), "C13": C13(), "C16": C16(), "C01": C01(), "C04": C04(), "C05": C05(), "C12": C12()}
